@@ -74,7 +74,13 @@ class Monitor:
         for s, typ in self.types.items():
             if typ != "event-based":
                 self.pending[s][reftime.zero(self.groups[s])] = [("initial",)]
+        # set_initial_event on a time-based / hybrid simulator: the documentation describes the call for event-based
+        # simulators only; mosaik replaces the automatic step at time 0 by the initial event.  The statement would
+        # also allow both, so a step at time 0 is accepted (not demanded) there.
+        self.optional_zero = set()
         for s, t in scn.get("initial_events", {}).items():
+            if self.types[s] != "event-based" and t > 0:
+                self.optional_zero.add(s)
             self.pending[s] = {}
             if t < self.until:
                 self.pending[s][reftime.from_world(self.groups[s], t)] = [("initial",)]
@@ -124,6 +130,10 @@ class Monitor:
         self.stats["steps"] += 1
         pend = self.pending[s]
         d = reftime.depth(self.groups[s])
+        if s in self.optional_zero:
+            self.optional_zero.discard(s)
+            if t == 0 and not any(x[0] == 0 for x in pend):
+                pend[reftime.zero(self.groups[s])] = [("initial",)]
         if not pend:
             self.v("C02.spurious", f"{s} stepped at {t} without any demand")
             L = (t,) + (0,) * (d - 1)
